@@ -4,7 +4,8 @@
   `jobsMu`:
 
     plugin/input/file/provider.go   addJob + initJobOffset (continue / reset), commit, truncateJob,
-                                    deleteJobAndUnlock (maintenance), start (load offsets)
+                                    start (load offsets); not modelled: maintenance deleting a job
+                                    (file removed, or a rename racing with its notification)
     plugin/input/file/worker.go     work (one turn = `Worker.turn`, the C06 model), processEOF
     plugin/input/file/file.go       PassEvent
     plugin/input/file/offset.go     save (per job: the snapshot is taken under that job's lock)
@@ -158,10 +159,13 @@ def commit (s : State) (e : Ev) : State :=
         else { s with inflight := s.inflight.filter (fun x => x ≠ e),
                       jobs := upd s.jobs e.ino (some { j with offsets := oset j.offsets e.stream e.off }) }
 
-/-- the head of its pipeline stream: no other in-flight event of the same source and stream is older
-    (outputs acknowledge a stream's events in order: C02) -/
-def oldest (s : State) (e : Ev) : Prop :=
-  ∀ e' ∈ s.inflight, e'.ino = e.ino → e'.stream = e.stream → e.seq ≤ e'.seq
+/-- the first in-flight event of a pipeline stream (source, stream name): events are put in order -/
+def headOf (i : Nat) (st : Stream) : List Ev → Option Ev
+  | [] => none
+  | x :: xs => if x.ino = i ∧ x.stream = st then some x else headOf i st xs
+
+/-- the head of its pipeline stream: outputs acknowledge a stream's events in order (C02) -/
+def oldest (s : State) (e : Ev) : Prop := headOf e.ino e.stream s.inflight = some e
 
 instance (s : State) (e : Ev) : Decidable (oldest s e) := by unfold oldest; infer_instance
 
@@ -173,7 +177,6 @@ inductive Op
   | truncate (ino : Nat)
   | discover (ino : Nat)                        -- watcher → addJob
   | scanDone                                    -- isStarted.Store(true)
-  | forget (ino : Nat)                          -- maintenance: deleteJobAndUnlock
   | readTurn (ino : Nat) (reads : List Bytes)
   | deliver (e : Ev)                            -- pipeline hands the event to the output
   | ack (e : Ev)                                -- the output has written it to its sink
@@ -215,12 +218,6 @@ def step? (cfg : Cfg) (s : State) : Op → Option State
       | _, _ => none
     else none
   | .scanDone => if running s && s.scanning then some { s with scanning := false } else none
-  | .forget i =>
-    if running s && !s.scanning then
-      match s.jobs i with
-      | some _ => some { s with jobs := upd s.jobs i none }
-      | none => none
-    else none
   | .readTurn i reads =>
     if running s then
       match s.files i, s.jobs i with
